@@ -329,6 +329,10 @@ def tmp_leftovers():
         return []
 
 
+ROOT_EXTRA = [('t', 1), None]
+ROOT_KW = {'rk': [1, {'z': (2,)}]}
+
+
 def cache_probe_for(cache_abs):
     """the committed cache file as it is before a build starts; the probe says what changed about it (None: nothing)"""
     def sig():
@@ -389,7 +393,10 @@ def run_case(case, hooks=None, mutate=False):
                 before_tmp = tmp_leftovers()
                 ctx.cache_probe = cache_probe_for(cache_abs)
 
-                def rootf(b, a):
+                def rootf(b, a, *rest, **rkw):
+                    # the root function's own arguments are passed through untouched (positional and keyword)
+                    if list(rest) != ROOT_EXTRA or rkw != ROOT_KW:
+                        raise RuntimeError('the root function received %r %r instead of %r %r' % (rest, rkw, ROOT_EXTRA, ROOT_KW))
                     ctx.root_entered = True
                     r_ = dsl.run_func(ctx, root_idx, b, None, a, {}, is_root=True)
                     if ctx.cache_probe is not None and not ctx.cache_early:
@@ -409,9 +416,9 @@ def run_case(case, hooks=None, mutate=False):
                 try:
                     try:
                         if versions == {} and step_index % 2 == 1:
-                            r = FileBuilder.build(ctx.spell(cache_abs), name, rootf, dsl.dec_pyval(arg_w))
+                            r = FileBuilder.build(ctx.spell(cache_abs), name, rootf, dsl.dec_pyval(arg_w), *ROOT_EXTRA, **ROOT_KW)
                         else:
-                            r = FileBuilder.build_versioned(ctx.spell(cache_abs), name, versions, rootf, dsl.dec_pyval(arg_w))
+                            r = FileBuilder.build_versioned(ctx.spell(cache_abs), name, versions, rootf, dsl.dec_pyval(arg_w), *ROOT_EXTRA, **ROOT_KW)
                         res = {'ok': wire.enc(r)}
                     except Exception as e:
                         res = {'exc': show_exc(e, ctx)}
